@@ -949,3 +949,105 @@ func fieldValueOf(al *ssa.Alloc, field int, at ssa.Instruction, depth int) ssa.V
 	}
 	return nil
 }
+
+// tableFieldConsts: v is the load of field f of an element of a table — a slice/array literal of structs
+// built in this function whose elements all store a constant string into f (`for _, e := range
+// []struct{key string; …}{{"a", …}, {"b", …}} { use(e.key) }`). Returns the constants of all elements:
+// the value is one of them.
+func tableFieldConsts(v ssa.Value) ([]string, bool) {
+	v = stripConv(v)
+	var base ssa.Value
+	fidx := -1
+	switch x := v.(type) {
+	case *ssa.UnOp:
+		if x.Op != token.MUL {
+			return nil, false
+		}
+		fa, ok := x.X.(*ssa.FieldAddr)
+		if !ok {
+			return nil, false
+		}
+		base, fidx = fa.X, fa.Field
+	case *ssa.Field:
+		base, fidx = x.X, x.Field
+	default:
+		return nil, false
+	}
+	// the struct: an element address, or a local copy of an element
+	var ia *ssa.IndexAddr
+	for depth := 0; depth < 4 && ia == nil; depth++ {
+		switch b := base.(type) {
+		case *ssa.IndexAddr:
+			ia = b
+		case *ssa.Alloc:
+			st := storesTo(b)
+			if len(st) != 1 {
+				return nil, false
+			}
+			base = st[0].Val
+		case *ssa.UnOp:
+			if b.Op != token.MUL {
+				return nil, false
+			}
+			base = b.X
+		default:
+			return nil, false
+		}
+	}
+	if ia == nil {
+		return nil, false
+	}
+	var arrAlloc *ssa.Alloc
+	switch s := stripConv(ia.X).(type) {
+	case *ssa.Slice:
+		arrAlloc, _ = s.X.(*ssa.Alloc)
+	case *ssa.Alloc:
+		arrAlloc = s
+	}
+	if arrAlloc == nil || arrAlloc.Referrers() == nil {
+		return nil, false
+	}
+	arr, ok := arrAlloc.Type().Underlying().(*types.Pointer).Elem().Underlying().(*types.Array)
+	if !ok {
+		return nil, false
+	}
+	vals := make([]string, arr.Len())
+	have := make([]bool, arr.Len())
+	for _, r := range *arrAlloc.Referrers() {
+		eia, ok := r.(*ssa.IndexAddr)
+		if !ok || eia.Referrers() == nil {
+			if _, isSl := r.(*ssa.Slice); isSl {
+				continue
+			}
+			return nil, false
+		}
+		idx, ok := constInt(eia.Index)
+		if !ok || idx < 0 || idx >= arr.Len() {
+			return nil, false
+		}
+		for _, rr := range *eia.Referrers() {
+			fa, ok := rr.(*ssa.FieldAddr)
+			if !ok {
+				return nil, false // whole-element store: not the literal lowering
+			}
+			if fa.Field != fidx {
+				continue
+			}
+			st := storesTo(fa)
+			if len(st) != 1 {
+				return nil, false
+			}
+			s, isC := constString(st[0].Val)
+			if !isC {
+				return nil, false
+			}
+			vals[idx], have[idx] = s, true
+		}
+	}
+	for _, h := range have {
+		if !h {
+			return nil, false
+		}
+	}
+	return vals, len(vals) > 0
+}
